@@ -650,7 +650,8 @@ impl Engine<'_> {
         // thresholding abs(tan(angle)) at 1/19, corresponding to 3 degrees."
         //
         // See <https://gitlab.freedesktop.org/freetype/freetype/-/blob/57617782464411201ce7bbc93b086c1b4d7d84a5/src/truetype/ttinterp.c#L5986>
-        if 19i32.wrapping_mul(discriminant.wrapping_abs()) > dotproduct.wrapping_abs() {
+        // FreeType evaluates this in `FT_Long`, which is 64 bits wide on LP64 targets
+        if 19 * (discriminant as i64).abs() > (dotproduct as i64).abs() {
             let v = mul_div(dx, dby.wrapping_neg(), 0x40).wrapping_add(mul_div(dy, dbx, 0x40));
             let x = mul_div(v, dax, discriminant);
             let y = mul_div(v, day, discriminant);
